@@ -70,8 +70,8 @@ ASSUMPTIONS = [
     'and never fail (socket errors and timeouts are C14)',
     'the wrapped handler is observed through EdgeServer.handle(sock, addr) of a stub edge built as '
     'class V1Edge(ProxyProtocolV1, StubEdge); listener=None',
-    'the module defines unknown and invalid source address as the same value (None, None): they cannot '
-    'be told apart at the handler, so a malformed header that is treated as UNKNOWN is not observable',
+    'the module attributes unknown_pp_source_address / invalid_pp_source_address (both (None, None) by default) are set to two '
+    'different values for the run, as an operator may do',
     'merging of read patterns relies on the canonical key of all bytes/int locals and bytecode offsets of '
     'the parser frames at each recv_into; state kept elsewhere (there is none in the module) would not be seen',
     'spellings that the spec forbids but int()/inet_pton accept, family/protocol pairs outside the spec\'s '
@@ -126,6 +126,11 @@ class AutoEdge(pp.ProxyProtocol, StubEdge):
 
 _EDGE_CLASSES = {'v1': V1Edge, 'v2': V2Edge, 'auto': AutoEdge}
 _EDGES = {}
+# The two fall-back addresses are documented module attributes for the operator to set; by default both are (None, None) and
+# could not be told apart at the handler.  The check gives them different values so that "malformed header -> the invalid
+# address" and "well-formed PROXY UNKNOWN / LOCAL / UNSPEC -> the unknown address" are two observable things.
+pp.invalid_pp_source_address = ('invalid.pp.test', 0)
+pp.unknown_pp_source_address = ('unknown.pp.test', 0)
 INVALID = pp.invalid_pp_source_address
 UNKNOWN_ADDR = pp.unknown_pp_source_address
 
